@@ -90,9 +90,12 @@ int main()
       FileName f(uh(t[1]));
       FileName fc(uh(t[1]).c_str());   // const char* constructor must agree (no NUL in the cases)
       o << hx(f.str()) << " " << hx(f.path()) << " " << hx(f.base()) << " " << hx(f.name()) << " " << hx(f.ext()) << " " << hx(f.dropExt().str());
+      // recomposition: dropExt() followed by addExt("." + ext()) when the last component has an extension
+      if (f.base().find('.') != std::string::npos) o << " " << hx(f.dropExt().addExt("." + f.ext()).str());
+      else o << " ~";
       if (uh(t[1]).find('\0') == std::string::npos && fc != f) o << " !CTOR";
     }
-    else if (k == "FE" && t.size() == 3) { FileName f(uh(t[1])); o << hx(f.setExt(uh(t[2])).str()) << " " << hx(f.addExt(uh(t[2])).str()); }
+    else if (k == "FE" && t.size() == 3) { FileName f(uh(t[1])); o << hx(f.setExt(uh(t[2])).str()) << " " << hx(f.addExt(uh(t[2])).str()) << " " << hx(f.dropExt().addExt(uh(t[2])).str()); }
     else if (k == "FP" && t.size() == 3) {
       FileName a(uh(t[1])), b(uh(t[2]));
       o << hx((a + b).str()) << " " << hx((a + uh(t[2])).str());
